@@ -48,7 +48,7 @@ theorem finv_setTask_st {st : State} (h : FInv st) (t : Nat) (F : Task → Task)
       rcases hl with e | e
       · exact .inl ⟨t, by rw [← e]; exact hf⟩
       · rw [e] at hf; cases hf) hr)
-  obtain ⟨a1, a2, a3, a4, a5, a6, a7, a8, a9, a10, a11⟩ := h
+  obtain ⟨a1, a2, a3, a4, a5, a6, a7, a8, a9, a10, a11, a12, a13, a14⟩ := h
   constructor
   · exact hr.1
   · exact hr.2
@@ -61,7 +61,7 @@ theorem finv_setLib {st : State} (h : FInv st) (t : Nat) (l : Lib)
     FInv (st.setTask t (fun x => { x with lib := l })) := by
   have hro := roles_of_sub (b := st.setTask t (fun x => { x with lib := l })) h (Nat.le_refl _)
     (fun f r hr => hasRole_setTask rfl rfl (fun f hf => hs f hf) hr)
-  obtain ⟨a1, a2, a3, a4, a5, a6, a7, a8, a9, a10, a11⟩ := h
+  obtain ⟨a1, a2, a3, a4, a5, a6, a7, a8, a9, a10, a11, a12, a13, a14⟩ := h
   constructor
   · exact hro.1
   · exact hro.2
@@ -72,7 +72,7 @@ theorem finv_setYielded {st : State} (h : FInv st) (t : Nat)
     FInv (st.setTask t (fun x => { x with st := .yielded })) := by
   have hro := roles_of_sub (b := st.setTask t (fun x => { x with st := .yielded })) h (Nat.le_refl _)
     (fun f r hr => hasRole_setTask rfl rfl (fun f hf => .inl ⟨t, hf⟩) hr)
-  obtain ⟨a1, a2, a3, a4, a5, a6, a7, a8, a9, a10, a11⟩ := h
+  obtain ⟨a1, a2, a3, a4, a5, a6, a7, a8, a9, a10, a11, a12, a13, a14⟩ := h
   constructor
   · exact hro.1
   · exact hro.2
@@ -94,7 +94,7 @@ theorem finv_setBlocked {st : State} (h : FInv st) (t f : Nat) (hlt : f < st.nFu
     FInv (st.setTask t (fun x => { x with st := .blocked f })) := by
   have hro := roles_of_sub (b := st.setTask t (fun x => { x with st := .blocked f })) h
     (Nat.le_refl _) (fun f r hr => hasRole_setTask rfl rfl (fun f hf => .inl ⟨t, hf⟩) hr)
-  obtain ⟨a1, a2, a3, a4, a5, a6, a7, a8, a9, a10, a11⟩ := h
+  obtain ⟨a1, a2, a3, a4, a5, a6, a7, a8, a9, a10, a11, a12, a13, a14⟩ := h
   constructor
   · exact hro.1
   · exact hro.2
@@ -123,6 +123,7 @@ theorem hasRole_mono {a b : State} (hl : ∀ t, (b.tasks t).lib = (a.tasks t).li
   | user => simpa [HasRole, hu] using hr
 
 theorem finv_resolveFut {st : State} (h : FInv st) (f : Nat) (v : FutSt) (hv : v.done = true)
+    (hlt : f < st.nFuts) (hne : v ≠ .failed .none)
     (hres : v = .result → ∀ t g u s e, (st.tasks t).lib = .startJoin g u s e →
       (st.tasks t).st = .blocked f → (st.tasks u).finished = true) :
     FInv (resolveFut st f v) := by
@@ -141,7 +142,7 @@ theorem finv_resolveFut {st : State} (h : FInv st) (f : Nat) (v : FutSt) (hv : v
       (resolveFut_userFut st f v) (fun f'' hf => sdIn_of_cframe fr.cframe hf) hr)
   have hn1 := fr.nFuts
   have hn2 := fr.nTasks
-  obtain ⟨a1, a2, a3, a4, a5, a6, a7, a8, a9, a10, a11⟩ := h
+  obtain ⟨a1, a2, a3, a4, a5, a6, a7, a8, a9, a10, a11, a12, a13, a14⟩ := h
   constructor
   · exact hro.1
   · exact hro.2
@@ -177,6 +178,20 @@ theorem finv_resolveFut {st : State} (h : FInv st) (f : Nat) (v : FutSt) (hv : v
     have := a5 t f'
     have := hres
     grind [FutSt.done]
+  · intro f' hf'
+    rw [hn1] at hf'
+    rw [hfu]
+    have := a12 f' hf'
+    have hne' : f' ≠ f := by omega
+    simp [hne', this]
+  · intro f'
+    rw [hfu]
+    have := a13 f'
+    grind
+  · intro t hc
+    rw [hst] at hc; rw [hl]
+    have := a14 t
+    grind
 
 theorem finv_blockOn {st : State} (h : FInv st) (t f : Nat) (hlt : f < st.nFuts)
     (hw : ∀ g u f', (st.tasks t).lib = .startWait g u f' → f' = f)
@@ -191,7 +206,8 @@ theorem finv_blockOn {st : State} (h : FInv st) (t f : Nat) (hlt : f < st.nFuts)
     finv_fsame (finv_setBlocked h t f hlt hw hsf hj)
       (fsame_loop rfl rfl rfl rfl rfl rfl (fun f hf => hf))
   split
-  · refine finv_resolveFut (finv_fsame h1 (fsame_setTask _ _ _ (by simp))) _ _ rfl ?_
+  · refine finv_resolveFut (finv_fsame h1 (fsame_setTask _ _ _ (by simp))) _ _ rfl hlt
+      (by simp) ?_
     intro hc; cases hc
   · exact h1
 
@@ -204,7 +220,7 @@ theorem finv_foldl_resolveFut {st : State} (h : FInv st) (l : List Nat) (t0 : Na
     simp only [List.foldl_cons]
     have fr := frame_resolveFut st f .result
     apply ih
-    · refine finv_resolveFut h f .result rfl ?_
+    · refine finv_resolveFut h f .result rfl (h.role_lt f (.hw t0) (hl f (by simp))) (by simp) ?_
       intro _ t g u s e hlib hb
       rcases h.sj_blk t g u s e f hlib hb with hm | hm
       · have := h.role_uniq f (.hw u) (.hw t0) hm (hl f (by simp))
@@ -247,7 +263,7 @@ theorem finv_hwAppend {st : State} (h : FInv st) (u f : Nat) (hf : Fresh st f)
           · simpa [hu] using ht
         · exact .inr hr
       | user => exact .inl hr)
-  obtain ⟨a1, a2, a3, a4, a5, a6, a7, a8, a9, a10, a11⟩ := h
+  obtain ⟨a1, a2, a3, a4, a5, a6, a7, a8, a9, a10, a11, a12, a13, a14⟩ := h
   constructor
   · exact hro.1
   · exact hro.2
@@ -257,7 +273,7 @@ theorem finv_setFinished {st : State} (h : FInv st) (t : Nat) (o : ExcVal) (ht :
     FInv (st.setTask t (fun x => { x with hexc := o, finished := true })) := by
   have hro := roles_of_sub (b := st.setTask t (fun x => { x with hexc := o, finished := true })) h
     (Nat.le_refl _) (fun f r hr => hasRole_setTask rfl rfl (fun f hf => .inl ⟨t, hf⟩) hr)
-  obtain ⟨a1, a2, a3, a4, a5, a6, a7, a8, a9, a10, a11⟩ := h
+  obtain ⟨a1, a2, a3, a4, a5, a6, a7, a8, a9, a10, a11, a12, a13, a14⟩ := h
   constructor
   · exact hro.1
   · exact hro.2
@@ -289,7 +305,7 @@ theorem finv_hwClear {st : State} (h : FInv st) (t : Nat) (hf : (st.tasks t).fin
           · simpa [hu] using ht
         · exact .inr hr
       | user => exact hr)
-  obtain ⟨a1, a2, a3, a4, a5, a6, a7, a8, a9, a10, a11⟩ := h
+  obtain ⟨a1, a2, a3, a4, a5, a6, a7, a8, a9, a10, a11, a12, a13, a14⟩ := h
   constructor
   · exact hro.1
   · exact hro.2
@@ -300,7 +316,7 @@ theorem finv_of_roles {a b : State} (h : FInv a) (ht : b.tasks = a.tasks) (hf : 
     (h1 : b.nFuts = a.nFuts) (h2 : b.nTasks = a.nTasks)
     (hro : (∀ f r, HasRole b f r → f < b.nFuts) ∧
       (∀ f r r', HasRole b f r → HasRole b f r' → r = r')) : FInv b := by
-  obtain ⟨a1, a2, a3, a4, a5, a6, a7, a8, a9, a10, a11⟩ := h
+  obtain ⟨a1, a2, a3, a4, a5, a6, a7, a8, a9, a10, a11, a12, a13, a14⟩ := h
   constructor
   · exact hro.1
   · exact hro.2
@@ -359,7 +375,7 @@ theorem finv_newFut {st : State} (h : FInv st) :
     cases r <;> exact hr
   have hro := roles_of_sub (b := (newFut st).1) h (by simp [newFut]) sub
   refine ⟨?_, ?_⟩
-  · obtain ⟨a1, a2, a3, a4, a5, a6, a7, a8, a9, a10, a11⟩ := h
+  · obtain ⟨a1, a2, a3, a4, a5, a6, a7, a8, a9, a10, a11, a12, a13, a14⟩ := h
     constructor
     · exact hro.1
     · exact hro.2
@@ -378,6 +394,15 @@ theorem finv_newFut {st : State} (h : FInv st) :
       have := a4 t f (.inr hw)
       have hne : f ≠ st.nFuts := by omega
       exact a11 t g u s e f hlib hw (by simpa [newFut, hne] using hr)
+    · intro f hf
+      have h1 : st.nFuts ≤ f := by simp [newFut] at hf; omega
+      have hne : f ≠ st.nFuts := by simp [newFut] at hf; omega
+      simpa [newFut, hne] using a12 f h1
+    · intro f
+      by_cases hne : f = st.nFuts
+      · subst hne; simp [newFut]
+      · simpa [newFut, hne] using a13 f
+    · exact a14
   · refine ⟨by simp [newFut], fun r hr => ?_, fun t => ?_, by simp [newFut]⟩
     · exact absurd (h.role_lt _ r (sub _ r hr)) (Nat.lt_irrefl _)
     · have := h.blk_lt t st.nFuts
@@ -439,7 +464,7 @@ theorem finv_newTask {st : State} (h : FInv st) (g gs hs : Nat) (sf : Option Nat
         · cases h1; exact .inr ⟨rfl, h2⟩)
   have hnb : ∀ f, sf = some f → ∀ t, (st.tasks t).st ≠ .blocked f := fun f hf t =>
     ((hsf f hf).noblk t).1
-  obtain ⟨a1, a2, a3, a4, a5, a6, a7, a8, a9, a10, a11⟩ := h
+  obtain ⟨a1, a2, a3, a4, a5, a6, a7, a8, a9, a10, a11, a12, a13, a14⟩ := h
   constructor
   · exact hro.1
   · exact hro.2
